@@ -244,6 +244,52 @@ def r8_17(ctx):
     ctx.floor(n, 1, "returns of Panel._title")
 
 
+def r8_18(ctx):
+    ctx.rule("R8.18", "a text laid out to an exact width is rendered at that width: in Panel.__rich_console__ the title is aligned to the cells between the corners (title.align(.., E)) and then handed to console.render; Text.__rich_console__ wraps and JUSTIFIES to the max_width of the options it receives, so either the render call passes options whose width is that same E, or the text's own justify is pinned to 'default' before (Panel._title, every path) - otherwise the console-wide default applies, and a title Text with justify='center' / 'right' is padded to the console width: the top border loses its corner (Panel('x', title=Text('hi', justify='center')))")
+    from ..astutil import inline as _inl, single_defs as _sdf
+    f = ctx.repo.fn("panel:Panel.__rich_console__")
+    m = f.module
+    sd = _sdf(f.node)
+    aligned = {}
+    for c in walk_local(f.node):
+        if isinstance(c, ast.Call) and isinstance(c.func, ast.Attribute) and c.func.attr == "align" and isinstance(c.func.value, ast.Name) and len(c.args) >= 2:
+            aligned[c.func.value.id] = c.args[1]
+    # mechanism B: the text's justify is pinned to 'default' (no padding in Lines.justify, and a truthy value so that the options'
+    # justify does not apply either) on every path of Panel._title before the text is returned
+    pinned = False
+    tf = ctx.repo.cls("panel:Panel").method("_title")
+    if tf is not None:
+        gT = cfgmod.build(tf.node)
+        rets_ = [nd for nd in gT.stmt_nodes() if nd.kind == "stmt" and isinstance(nd.stmt, ast.Return) and isinstance(nd.stmt.value, ast.Name)]
+        if rets_:
+            pinned = True
+            for nd in rets_:
+                v_ = nd.stmt.value.id
+                pins = {x.id for x in gT.stmt_nodes() if x.kind == "stmt" and isinstance(x.stmt, ast.Assign) and any(norm(t_) == f"{v_}.justify" for t_ in x.stmt.targets)
+                        and isinstance(x.stmt.value, ast.Constant) and x.stmt.value.value == "default"}
+                creates = [x.id for x in gT.stmt_nodes() if x.kind == "stmt" and isinstance(x.stmt, (ast.Assign, ast.AnnAssign)) and any(isinstance(t_, ast.Name) and t_.id == v_ for t_ in (x.stmt.targets if isinstance(x.stmt, ast.Assign) else [x.stmt.target]))]
+                if not pins or not creates or any(nd.id in gT.reach([c_], avoid=pins) for c_ in creates):
+                    pinned = False
+    n = 0
+    for c in walk_local(f.node):
+        if isinstance(c, ast.Call) and norm(c.func) == "console.render" and c.args and isinstance(c.args[0], ast.Name) and c.args[0].id in aligned:
+            n += 1
+            if pinned and norm(_inl(c.args[0], sd)) == "self._title":
+                ctx.ok(f"{m.relpath}:{c.lineno}", "the aligned title cannot be re-justified: Panel._title pins its justify to 'default' on every path", f.fq)
+                continue
+            want = norm(_inl(aligned[c.args[0].id], sd))
+            opts = c.args[1] if len(c.args) > 1 else next((k.value for k in c.keywords if k.arg == "options"), None)
+            if opts is not None:
+                opts = _inl(opts, sd)
+            got = None
+            if isinstance(opts, ast.Call) and isinstance(opts.func, ast.Attribute) and opts.func.attr in ("update", "update_width"):
+                wa = next((k.value for k in opts.keywords if k.arg == "width"), None) or (opts.args[0] if opts.args else None)
+                got = norm(_inl(wa, sd)) if wa is not None else None
+            ctx.check(got == want, f.fq, short(c), f"{m.relpath}:{c.lineno}", f"the aligned text is rendered with options of width `{want}`",
+                      f"`{short(c)}` renders a text that was aligned to `{want}` cells with {'options of width `' + got + '`' if got else ('the given options unchanged' if opts is not None else 'the console-wide default options')}: Text wraps and justifies to the width of the options it is rendered with, so a title with its own justify (center / right / full) is padded out to that width and the border line is wider than the panel - its corner is cropped away")
+    ctx.floor(n, 1, "renders of an aligned title in Panel")
+
+
 def r8_8(ctx):
     ctx.rule("R8.8", "alignment wrapper (path-sensitive symbolic emission over all paths of Align's generator): the child's lines, shaped to their common width w, are emitted unchanged between pads; with padding enabled every line is exactly options.max_width cells for left / center / right (left + w + (excess - left) etc.), without padding never more; when the child already fills the width nothing is added")
     from ..pathemit import PathEmit
@@ -706,4 +752,4 @@ def r8_16(ctx):
     borrow(ctx, r1_3, "R1.3", "R8.16", " [a frame is a rectangle of at most the width it was given: the child of a fitting Panel is measured against the width minus the two border cells, otherwise the right border is pushed out and cropped]")
 
 
-RULES = [r8_3, r8_4, r8_5, r8_6, r8_7, r8_8, r8_9, r8_10, r8_11, r8_12, r8_13, r8_14, r8_15, r8_16, r8_17]
+RULES = [r8_3, r8_4, r8_5, r8_6, r8_7, r8_8, r8_9, r8_10, r8_11, r8_12, r8_13, r8_14, r8_15, r8_16, r8_17, r8_18]
